@@ -206,6 +206,28 @@ func call(op string, t reflect.Type, val int) (res string) {
 			cat += len(tk.Value) + tk.Depth*3 + tk.Index
 		}
 		return fmt.Sprint(n, cat, tk.Err)
+	case "json.PooledMaps":
+		// the specialised string-keyed map encoders share a pooled sort scratch (mapslice) and the pooled encode buffer
+		type pooled struct {
+			A map[string]any
+			S map[string]string
+			B map[string]bool
+			L map[string][]string
+			R map[string]stdjson.RawMessage
+		}
+		pv := pooled{A: map[string]any{}, S: map[string]string{}, B: map[string]bool{}, L: map[string][]string{}, R: map[string]stdjson.RawMessage{}}
+		for j := 0; j < 3+val*3; j++ {
+			k := fmt.Sprint("k", (j*7+val)%23, "_", j)
+			pv.A[k] = []any{j, k, map[string]any{"n": val}}
+			pv.S[k] = strings.Repeat("v", j%9)
+			pv.B[k] = j%2 == 0
+			pv.L[k] = []string{k, "x"}
+			pv.R[k] = stdjson.RawMessage(fmt.Sprintf(`{"j":%d}`, j))
+		}
+		b, err := segjson.Marshal(pv)
+		var back pooled
+		uerr := segjson.Unmarshal(b, &back)
+		return fmt.Sprintf("%s|%v|%s|%v", b, err, canon(back), uerr)
 	case "json.TokenizerReuse":
 		// one Tokenizer used for several inputs: exhausted (its stack goes back to the pool), Reset
 		// half-way through a nested document, and reused again
@@ -253,7 +275,7 @@ func call(op string, t reflect.Type, val int) (res string) {
 	return "unknown op"
 }
 
-var ops = []string{"json.Marshal", "json.Unmarshal", "json.Tokenizer", "json.TokenizerReuse", "proto.Marshal", "proto.Size", "proto.TypeOf", "thrift.Marshal.compact", "thrift.Marshal.binary"}
+var ops = []string{"json.Marshal", "json.Unmarshal", "json.Tokenizer", "json.TokenizerReuse", "json.PooledMaps", "proto.Marshal", "proto.Size", "proto.TypeOf", "thrift.Marshal.compact", "thrift.Marshal.binary"}
 
 type outcome struct {
 	step Step
